@@ -339,6 +339,14 @@ func (fr *frame) runBlocks() (done bool) {
 	for {
 		b := fr.block
 		fr.visits[b.Index]++
+		if !fr.isHarness() {
+			cov := m.Res.Blocks[fr.fn]
+			if cov == nil {
+				cov = make([]bool, len(fr.fn.Blocks))
+				m.Res.Blocks[fr.fn] = cov
+			}
+			cov[b.Index] = true
+		}
 		if fr.visits[b.Index] > m.Opt.LoopBound && !fr.isHarness() {
 			m.end(StUnwind, "loop bound %d exceeded in %s block %d", m.Opt.LoopBound, fr.fn, b.Index)
 		}
